@@ -212,7 +212,11 @@ def _shard_job(job):
     t0 = time.time()
     try:
         if check.custom is not None:
-            check.custom(rec, sseed, n, tier, shard)
+            try:
+                check.custom(rec, sseed, n, tier, shard)
+            except Violation as v:
+                rec.violation = {"check": check.name, "signature": v.signature, "message": v.message,
+                                 "args": jsonable(v.args_dict), "seed": sseed}
         else:
             run_given(rec, sseed, n, check.strategies(), check.fn,
                       shrink=(tier == "thorough" or check.shrink_quick), check_name=check.name)
